@@ -6,10 +6,13 @@
        entry by x, nJ leaves n entries at their default);
      * the importance of a cell given several particle types: the cell is left
        out iff every particle's importance is zero, i.e. (importances being
-       non-negative) iff the largest one is zero.
+       non-negative) iff the largest one is zero;
+     * IMP keywords on a cell card (including the options a LIKE n BUT card
+       inherits, read in order): each entry names particle types and gives one
+       number; for a particle the LAST entry that names it counts.
    Numbers live in a [Scalar T]; at T = R these are the mathematical
    definitions. *)
-From Coq Require Import List NArith ZArith Bool.
+From Coq Require Import List NArith ZArith Bool String.
 From T4V Require Import Base.Scalar.
 Import ListNotations.
 
@@ -65,13 +68,22 @@ Section Spec.
   (* the larger of two numbers (the first one when they are equal) *)
   Definition max2 (a b : T) : T := if sltb Sc a b then b else a.
 
-  (* largest of a non-empty list (the latest one among equals); None for the
-     empty list *)
-  Definition max_list (xs : list T) : option T :=
-    match xs with
+  (* an IMP entry of a cell card: the particles it names and its value *)
+  Definition imp_entry := (list string * T)%type.
+
+  (* the importance of particle p: the value of the last entry naming p *)
+  Fixpoint last_value (p : string) (es : list imp_entry) : option T :=
+    match es with
     | [] => None
-    | x :: r => Some (fold_left (fun m y => max2 y m) r x)
+    | (ps, x) :: r =>
+        match last_value p r with
+        | Some y => Some y
+        | None => if existsb (String.eqb p) ps then Some x else None
+        end
     end.
+
+  (* the particles the entries name *)
+  Definition named (es : list imp_entry) : list string := flat_map fst es.
 
   Fixpoint zip_max2 (a b : list T) : list T :=
     match a, b with
